@@ -41,6 +41,8 @@ def run(ctx):
     R.rule("C12-D1a record placement", 3, "one IntelHex receives ljust(record, size, 0xFF) at address and is written to output_file")
     fb = find_effect_calls(o.effects, "meth:frombytes")
     wr = find_effect_calls(o.effects, "meth:write_hex_file")
+    if len(fb) == 0 or len(wr) == 0:
+        generic.absent(ctx, "MPI record", gen, "frombytes(record, address) and write_hex_file(output_file)", "the record is not written")
     if len(fb) != 1 or len(wr) != 1:
         raise AnalysisError(f"{fq}: frombytes/write_hex_file effects not recognised ({len(fb)}/{len(wr)})")
     fbt, wrt = fb[0], wr[0]
@@ -178,6 +180,8 @@ def merge_rules(ctx, ev):
 
     R.rule("C12-D2a bounds test", 3, "an input reaching outside [address, address+size-1] is rejected before it is merged")
     merges = find_effect_calls(o.effects, "meth:merge")
+    if len(merges) == 0:
+        generic.absent(ctx, "merge of the inputs", mg, "merged_hex.merge(<input>) for every input file", "no input record reaches the merged area")
     if len(merges) != 1:
         raise AnalysisError(f"{fq}: merge call not recognised")
     mcall = merges[0]
@@ -269,6 +273,8 @@ def merge_rules(ctx, ev):
             node=tb.node, function=fq, expected="exactly size bytes starting at address", found=f"start={start!r} end={end!r}"[:200])
     fb = find_effect_calls(o.effects, "meth:frombytes")
     wr = find_effect_calls(o.effects, "meth:write_hex_file")
+    if len(fb) == 0 or len(wr) == 0:
+        generic.absent(ctx, "merged area", mg, "frombytes(area + digest, address) and write_hex_file(output_file)", "the merged area is not written")
     if len(fb) != 1 or len(wr) != 1:
         raise AnalysisError(f"{fq}: output effects not recognised")
     out_data, out_addr = fb[0].args[1], fb[0].args[2] if len(fb[0].args) > 2 else None
